@@ -17,6 +17,7 @@ from facts import AnchorMissing
 import mirq as Q
 import hirq as H
 import pp
+from rules.C04 import _config_at_call, _config_default, _config_fields
 from rules.C01 import (Interp, MutStruct, Undecidable, V, is_variant, freeze, _hloc, _short, _variants,
                        _reachable_under, ATTRCHAR, ORIGIN, SOME, NONE)
 
@@ -50,6 +51,7 @@ FILE_EXISTS = GLOB + "SearchEnv::<'_, S>::file_exists"
 TO_PATTERN = GLOB + 'to_pattern'
 GLOB_FN = GLOB + 'glob'
 PCHAR = 'yash_fnmatch::char_iter::PatternChar'
+PWC = 'yash_fnmatch::Pattern::parse_with_config'
 NE = [re.compile(r'PartialEq.*::ne$')]
 EQ = [re.compile(r'PartialEq.*::eq$')]
 
@@ -497,39 +499,70 @@ def r4(cx):
             cx.violation(b2.root, 'caller:opendir', 'yash-semantics opens a directory outside search_dir', loc=b2.loc(t2))
 
 
+def _chars_extern(F, feed):
+    """extern callback for the interpreter running to_pattern::Chars::next: the inner iterator (the opaque ('O', 'inner')) yields the
+    characters of `feed`, whether it is advanced by `for c in &mut self.inner`, by `self.inner.next()` (in a `loop { match .. }` /
+    `while let`), or by `self.inner.find(closure)` (= next() until the closure says true); `by_ref()` is the iterator itself."""
+    IT = 'core::iter::traits::iterator::Iterator::'
+
+    def extern(name, recv, args, node):
+        decl = (node.get('decl') if isinstance(node, dict) else None) or name
+        if recv == ('O', 'inner'):
+            if IT + 'next' in (name, decl) and not args:
+                return V(SOME, feed.pop(0)) if feed else V(NONE)
+            if IT + 'by_ref' in (name, decl) and not args:
+                return recv
+            if IT + 'find' in (name, decl) and len(args) == 1 and isinstance(args[0], tuple) and args[0] and args[0][0] == 'C':
+                while feed:
+                    x = feed.pop(0)
+                    r = Interp(F, extern).call_closure(args[0], [x])
+                    if not isinstance(r, bool):
+                        raise Undecidable('Chars::next: the predicate given to find does not return a boolean')
+                    if r:
+                        return V(SOME, x)
+                return V(NONE)
+        raise Undecidable('Chars::next: call of %s is not modelled' % name)
+    return extern
+
+
 @RS.rule('C05.R5', 'K-EFFECT+K-TABLE', 'to_pattern: anchored at both ends with literal_period; quoted / hard-expansion characters are literals, quoting characters vanish; split at "/" first')
 def r5(cx):
     F = cx.F
     body = F.body(TO_PATTERN)
     cx.fn(body.fn)
-    du = Q.DefUse(body)
-    pw = Q.find_calls(body, ['yash_fnmatch::Pattern::parse_with_config'])
+    # the Config VALUE that reaches parse_with_config (abstract evaluation through helpers: rules/C04.py _ConfigEval), whatever
+    # function of the module builds it: Config::default() + field writes, a struct literal, a private `config()` ...
+    pw = Q.find_calls(body, [PWC])
+    if not pw:
+        body = F.inlined(TO_PATTERN)          # the compile call itself moved into a private helper of the module
+        pw = Q.find_calls(body, [PWC])
     cx.require(len(pw) == 1, 'expected one parse_with_config in to_pattern')
-    cfg_local = Q.operand_local(pw[0][1]['a'][1])
-    cfg_local = _behind(du, pw[0][1]['a'][1])
-    d = du.defs.get(cfg_local, [])
-    from_default = [x for x in d if x[1] == 't' and Q.callee_is(x[2], [re.compile(r'^<yash_fnmatch::Config as core::default::Default>::default$')])]
-    cx.site('%s: parse_with_config(chars, config) at %s; config from Config::default(): %s' % (body.fn, body.loc(pw[0][1]), bool(from_default)))
-    if not from_default:
-        cx.violation(TO_PATTERN, 'config-source', 'the Config given to parse_with_config is not the local initialised from '
-                     'Config::default()', loc=body.loc(pw[0][1]))
-    writes = {}
-    for b, j, s, kind, f in Q.field_writes(body, 'yash_fnmatch::Config'):
-        writes.setdefault(f, []).append((b, j, s, kind))
+    fields = _config_fields(F)
+    cx.require({'anchor_begin', 'anchor_end', 'literal_period'} <= set(fields), 'yash_fnmatch::Config has no anchor_begin / anchor_end / literal_period field')
+    dflt = _config_default(F)
+    cx.require(dflt is not None and all(len(dflt[f]) == 1 and '?' not in dflt[f] for f in fields), 'Config::default() could not be evaluated')
+    val = _config_at_call(F, body, pw[0][0], pw[0][1]['a'][1])
+    cx.site('%s: parse_with_config(chars, Config{%s}) at %s' % (body.fn, 'unknown' if val is None else
+            ', '.join('%s=%s' % (f, '|'.join(sorted(val[f]))) for f in fields), body.loc(pw[0][1])))
+    # a Config that cannot be followed at all (not built from Config::default() / a literal and constant writes in analysable
+    # functions) is no verdict, not a violation: fail closed
+    cx.require(val is not None, 'the Config given to parse_with_config in to_pattern cannot be followed to Config::default() and constant field writes')
     for f in ('anchor_begin', 'anchor_end', 'literal_period'):
-        ws = writes.get(f, [])
-        cx.site('%s: config.%s written x%d' % (body.fn, f, len(ws)))
-        good = [w for w in ws if w[3] == 'assign' and w[2]['rv']['k'] == 'use' and _bool_const(w[2]['rv']['o']) is True and
-                w[2]['lhs']['l'] == cfg_local and body.dominates(w[0], pw[0][0])]
-        if not good or len(good) != len(ws):
+        got = set(val[f])
+        cx.cellcount(1)
+        if got != {'true'}:
             what = {'anchor_begin': 'a pattern could match a name from its middle (`b*` matches `ab`)',
                     'anchor_end': 'a pattern could match a prefix of a name (`a` matches `ab`)',
                     'literal_period': 'wildcards could match a leading period (`*` matches `.hidden`)'}[f]
-            cx.violation(TO_PATTERN, 'config:%s' % f, 'Config.%s is not set to true on every path to parse_with_config: %s' % (f, what),
-                         loc=body.loc(pw[0][1]))
-    for f in sorted(set(writes) - {'anchor_begin', 'anchor_end', 'literal_period'}):
-        cx.violation(TO_PATTERN, 'config-extra:%s' % f, 'to_pattern changes Config.%s, which pathname expansion leaves at its default' % f,
-                     loc=body.loc(writes[f][0][2]))
+            cx.violation(TO_PATTERN, 'config:%s' % f, 'Config.%s is not set to true on every path to parse_with_config (found %s): %s%s'
+                         % (f, sorted(got), what, ' [the value is not a constant]' if 'false' not in got else ''), loc=body.loc(pw[0][1]))
+    for f in fields:
+        if f in ('anchor_begin', 'anchor_end', 'literal_period'):
+            continue
+        cx.cellcount(1)
+        if set(val[f]) != set(dflt[f]):
+            cx.violation(TO_PATTERN, 'config-extra:%s' % f, 'to_pattern changes Config.%s, which pathname expansion leaves at its default '
+                         '(%s; found %s)' % (f, '|'.join(sorted(dflt[f])), sorted(val[f])), loc=body.loc(pw[0][1]))
     # Chars::next table
     nxt = [k for k in F.hir if k.startswith('<' + TO_PATTERN + '::') and k.endswith('Iterator>::next')]
     cx.require(len(nxt) == 1, 'to_pattern::Chars::next not found')
@@ -538,10 +571,7 @@ def r5(cx):
     chars_adt = re.match(r'^<(.*?)<', nfn).group(1)
     feed = []
 
-    def extern(name, recv, args, node):
-        if name == 'core::iter::traits::iterator::Iterator::next' and recv == ('O', 'inner'):
-            return V(SOME, feed.pop(0)) if feed else V(NONE)
-        raise Undecidable('Chars::next: call of %s is not modelled' % name)
+    extern = _chars_extern(F, feed)
     for nq in (False, True):
         for val in ('\\', 'x'):
             for org in _variants(F, ORIGIN):
@@ -1048,10 +1078,7 @@ def r9(cx):
     chars_adt = re.match(r'^<(.*?)<', nfn).group(1)
     feed = []
 
-    def extern(name, recv, args, node):
-        if name == 'core::iter::traits::iterator::Iterator::next' and recv == ('O', 'inner'):
-            return V(SOME, feed.pop(0)) if feed else V(NONE)
-        raise Undecidable('Chars::next: call of %s is not modelled' % name)
+    extern = _chars_extern(F, feed)
 
     def ac(val, org, quoted, quoting):
         return MutStruct(ATTRCHAR, {'value': val, 'origin': V('%s::%s' % (ORIGIN, org)), 'is_quoted': quoted, 'is_quoting': quoting})
